@@ -346,15 +346,15 @@ func scenarios(tier string, yield0 func(any) bool) {
 }
 
 func bounds(tier string) (explore.Bounds, int) {
-	b := explore.DefaultBounds(1)
-	b[explore.KSched] = 2
-	b[explore.KSelect] = 2
+	b := explore.DefaultBounds(2)
+	b[explore.KSched] = 4
+	b[explore.KSelect] = 3
 	b[explore.KRead] = 1
 	if tier == "thorough" {
-		b[explore.KSched] = 3
-		return b, 3
+		b[explore.KSched] = 5
+		return b, 4
 	}
-	return b, 2
+	return b, 3
 }
 
 func main() {
@@ -362,7 +362,7 @@ func main() {
 	runner.Main(&runner.Harness{
 		ID:    "C13",
 		Level: "model_checking",
-		Rule: "mixes of 1-2 (3 thorough) connections of kinds {terminal-route match, fall-through, fall-through after a non-terminal route consumed 2 bytes, undecided until the matching timeout, matcher error} x consumer {Accept eagerly, only after all matching ended, never} x hand-off channel capacity {1,2} x listener Close before connection k / at the end x payload {3, 9 bytes}; every interleaving of the real listener loop, handle goroutines, Accept, Close and the consumer within the joint deviation budget (2 quick / 3 thorough for the mixes around a falling-through connection with channel capacity 1, one less otherwise: preemptions, select alternatives, early timers, pool misses, short reads); the buffer pool is a deterministic LIFO so that reuse of a just-returned buffer is the default",
+		Rule: "mixes of 1-2 (3 thorough) connections of kinds {terminal-route match, fall-through, fall-through after a non-terminal route consumed 2 bytes, undecided until the matching timeout, matcher error} x consumer {Accept eagerly, only after all matching ended, never} x hand-off channel capacity {1,2} x listener Close before connection k / at the end x payload {3, 9 bytes}; every interleaving of the real listener loop, handle goroutines, Accept, Close and the consumer within the joint deviation budget (delay bounding; 3 quick / 4 thorough for the mixes around a falling-through connection with channel capacity 1, one less otherwise: preemptions, select alternatives, early timers, pool misses, short reads); the buffer pool is a deterministic LIFO so that reuse of a just-returned buffer is the default",
 		Assumptions: []string{
 			"the code under test is /repo's working tree mechanically redirected to the scheduler (tools/gomcrw); sync.Pool is replaced by a deterministic LIFO pool",
 			"TLS-terminated fall-through is covered by C01's TLS chains and the tlsConnection wrapper is not exercised here",
@@ -387,9 +387,7 @@ func main() {
 				ex.Total--
 			}
 			if tier != "thorough" && len(sc.Conns) > 1 {
-				// with two connections a timer firing early is only explored on its own in the
-				// thorough tier; here the budget goes to preemptions, select and pool choices
-				ex.Bounds[explore.KTime] = 0
+				ex.Bounds[explore.KTime] = 1
 			}
 			ex.Stop = rep.Expired
 			ex.Explore(func(x *explore.Exec) { check(x, sc, execute(x, sc)) })
